@@ -293,7 +293,18 @@ def job_sched(j):
                 k = 1 if rng.random() < 0.7 else 2
                 faults = rng.sample(ids, min(k, len(ids)))
             args = [Sym("arg", rng.randrange(1 << 30))]
-            case = sched.run_case(sp, op=op, args=args, faults=faults, controlled=(mode == "ctl"), d=d, plain=plain)
+            # configuration axis: profiling of all nodes on/off (process-global tawazi.config.cfg)
+            from tawazi.config import cfg as _cfg
+
+            prof = rng.random() < 0.25
+            old_prof = _cfg.TAWAZI_PROFILE_ALL_NODES
+            _cfg.TAWAZI_PROFILE_ALL_NODES = prof
+            try:
+                case = sched.run_case(sp, op=op, args=args, faults=faults, controlled=(mode == "ctl"), d=d, plain=plain)
+            finally:
+                _cfg.TAWAZI_PROFILE_ALL_NODES = old_prof
+            if prof:
+                col.counters["cases_with_profiling_on"] += 1
             eval_case(col, case, mode)
     return col.result()
 
